@@ -1,3 +1,1108 @@
-//! placeholder
+//! C02 — outbound packets are spec-conformant and carry exactly what the user supplied; the emitted
+//! byte stream does not depend on how the output buffer space is sized or fragmented.
+//!
+//! (a) PACKET SWEEP: bounded-exhaustive products over every user-constructible packet type, encoded by
+//!     the library's real encoder (facade `verif::encode`) with one large buffer and decoded by the
+//!     independent reference decoder; the result must equal `project(what the application supplied)`.
+//! (b) FRAGMENTATION GRAPH: for a representative packet set the resumable encoder is explored as a state
+//!     graph, node = (bytes emitted so far, complete?), edge = one encoder call with capacity c.
+
+use crate::codec::gen::*;
 use crate::common::*;
-pub fn run(tier: Tier) -> i32 { let _ = tier; eprintln!("not implemented"); 2 }
+use crate::refcodec::{self, RefErr};
+use gneiss_mqtt::client::config::{ConnectOptions, RejoinSessionPolicy};
+use gneiss_mqtt::client::NegotiatedSettings;
+use gneiss_mqtt::mqtt::{QualityOfService, UserProperty};
+use gneiss_mqtt::verif;
+use gneiss_mqtt::verif::*;
+use rayon::prelude::*;
+use serde_json::{json, Value};
+use std::collections::{BTreeMap, HashMap, HashSet, VecDeque};
+use std::sync::atomic::{AtomicU64, Ordering};
+use std::sync::Mutex;
+
+const LENS: [usize; 9] = [0, 1, 2, 127, 128, 16383, 16384, 65535, 65536];
+/// alias-resolution outcomes: (mqtt311, skip_topic, alias)
+const OUTCOMES: [(bool, bool, Option<u16>); 6] = [
+    (false, false, None), (false, false, Some(1)), (false, false, Some(65535)), (false, true, Some(1)), (false, true, Some(65535)), (true, false, None),
+];
+
+struct Ctx {
+    findings: Findings,
+    distinct: DistinctSet,
+    evaluations: AtomicU64,
+    encoder_runs: AtomicU64,
+    passed: AtomicU64,
+    per_type: Vec<AtomicU64>,
+    rejected_unrepresentable: AtomicU64,
+    rejected_by_validation: AtomicU64,
+    unexpected_validation_rejects: AtomicU64,
+    unexpected_samples: Mutex<Vec<String>>,
+    overlong_emitted: Mutex<std::collections::BTreeSet<String>>,
+    panics: AtomicU64,
+    sweeps: Mutex<BTreeMap<&'static str, (u64, u64)>>,
+    samples: Mutex<Vec<Value>>,
+    settings: NegotiatedSettings,
+    connect_for_validation: ConnectOptions,
+}
+
+impl Ctx {
+    fn new() -> Ctx {
+        let settings = NegotiatedSettings {
+            maximum_qos: QualityOfService::ExactlyOnce,
+            session_expiry_interval: 1000,
+            receive_maximum_from_server: 65535,
+            maximum_packet_size_to_server: 268_435_460,
+            topic_alias_maximum_to_server: 65535,
+            server_keep_alive: 1200,
+            retain_available: true,
+            wildcard_subscriptions_available: true,
+            subscription_identifiers_available: true,
+            shared_subscriptions_available: true,
+            rejoined_session: false,
+            client_id: "c".to_string(),
+        };
+        let mut builder = ConnectOptions::builder();
+        builder.with_session_expiry_interval_seconds(1000);
+        Ctx {
+            findings: Findings::default(), distinct: DistinctSet::default(), evaluations: AtomicU64::new(0), encoder_runs: AtomicU64::new(0), passed: AtomicU64::new(0),
+            per_type: (0..32).map(|_| AtomicU64::new(0)).collect(), rejected_unrepresentable: AtomicU64::new(0), rejected_by_validation: AtomicU64::new(0),
+            unexpected_validation_rejects: AtomicU64::new(0), unexpected_samples: Mutex::new(Vec::new()), overlong_emitted: Mutex::new(Default::default()), panics: AtomicU64::new(0), sweeps: Mutex::new(BTreeMap::new()),
+            samples: Mutex::new(Vec::new()), settings, connect_for_validation: builder.build(),
+        }
+    }
+}
+
+// ---------------------------------------------------------------------------------------------
+// field inventory (names, lengths) of a packet: over-length detection, buffer sizing
+// ---------------------------------------------------------------------------------------------
+
+/// (field name, byte length, limited to 65535 by a two-byte length prefix)
+fn fields(p: &Pkt) -> Vec<(String, usize, bool)> {
+    let mut out: Vec<(String, usize, bool)> = Vec::new();
+    fn props(out: &mut Vec<(String, usize, bool)>, prefix: &str, u: &VProps) {
+        for (name, value) in u.iter().flatten() {
+            out.push((format!("{}user-property name", prefix), name.len(), true));
+            out.push((format!("{}user-property value", prefix), value.len(), true));
+        }
+    }
+    fn opt_s(out: &mut Vec<(String, usize, bool)>, name: &str, v: &Option<String>) { if let Some(v) = v { out.push((name.to_string(), v.len(), true)); } }
+    fn opt_b(out: &mut Vec<(String, usize, bool)>, name: &str, v: &Option<Vec<u8>>, limited: bool) { if let Some(v) = v { out.push((name.to_string(), v.len(), limited)); } }
+    match p {
+        Pkt::Connect(c) => {
+            opt_s(&mut out, "client id", &c.client_id);
+            opt_s(&mut out, "username", &c.username);
+            opt_b(&mut out, "password", &c.password, true);
+            opt_s(&mut out, "authentication method", &c.authentication_method);
+            opt_b(&mut out, "authentication data", &c.authentication_data, true);
+            props(&mut out, "", &c.user_properties);
+            if let Some(w) = &c.will {
+                out.push(("will topic".into(), w.topic.len(), true));
+                opt_b(&mut out, "will payload", &w.payload, true);
+                opt_s(&mut out, "will response topic", &w.response_topic);
+                opt_b(&mut out, "will correlation data", &w.correlation_data, true);
+                opt_s(&mut out, "will content type", &w.content_type);
+                props(&mut out, "will ", &w.user_properties);
+            }
+        }
+        Pkt::Publish(m) => {
+            out.push(("topic".into(), m.topic.len(), true));
+            opt_b(&mut out, "payload", &m.payload, false);
+            opt_s(&mut out, "response topic", &m.response_topic);
+            opt_b(&mut out, "correlation data", &m.correlation_data, true);
+            opt_s(&mut out, "content type", &m.content_type);
+            props(&mut out, "", &m.user_properties);
+        }
+        Pkt::Subscribe(s) => {
+            for sub in &s.subscriptions { out.push(("topic filter".into(), sub.topic_filter.len(), true)); }
+            props(&mut out, "", &s.user_properties);
+        }
+        Pkt::Unsubscribe(u) => {
+            for f in &u.topic_filters { out.push(("topic filter".into(), f.len(), true)); }
+            props(&mut out, "", &u.user_properties);
+        }
+        Pkt::Disconnect(d) => {
+            opt_s(&mut out, "reason string", &d.reason_string);
+            opt_s(&mut out, "server reference", &d.server_reference);
+            props(&mut out, "", &d.user_properties);
+        }
+        Pkt::Puback(a) | Pkt::Pubrec(a) | Pkt::Pubrel(a) | Pkt::Pubcomp(a) => { opt_s(&mut out, "reason string", &a.reason_string); props(&mut out, "", &a.user_properties); }
+        _ => {}
+    }
+    out
+}
+
+fn overlong(p: &Pkt) -> Vec<String> { fields(p).into_iter().filter(|(_, len, limited)| *limited && *len > 65535).map(|(n, _, _)| n).collect() }
+fn has_empty_topic_or_filter(p: &Pkt) -> bool {
+    match p {
+        Pkt::Publish(m) => m.topic.is_empty() || m.response_topic.as_deref() == Some(""),
+        Pkt::Subscribe(s) => s.subscriptions.iter().any(|x| x.topic_filter.is_empty()),
+        Pkt::Unsubscribe(u) => u.topic_filters.iter().any(|x| x.is_empty()),
+        _ => false,
+    }
+}
+fn capacity_for(p: &Pkt) -> usize { fields(p).iter().map(|(_, len, _)| *len + 16).sum::<usize>() + 4096 }
+
+// ---------------------------------------------------------------------------------------------
+// oracle
+// ---------------------------------------------------------------------------------------------
+
+/// What must be on the wire: the application's packet with the alias resolver's decision applied,
+/// projected onto what the protocol version can express.
+fn expected_of(p: &Pkt, v311: bool, skip: bool, alias: Option<u16>) -> Pkt {
+    let mut e = p.clone();
+    if let Pkt::Publish(m) = &mut e {
+        if !v311 {
+            if skip { m.topic.clear(); }
+            m.topic_alias = alias;
+        }
+    }
+    refcodec::project(&e, v311)
+}
+
+enum Verdict {
+    Pass(Vec<u8>),
+    Rejected(ErrKind),
+    Panic(String),
+    Fail { symptom: String, bytes: Vec<u8>, got: String },
+}
+
+fn oracle(ctx: &Ctx, pkt: &Pkt, expected_source: &Pkt, v311: bool, skip: bool, alias: Option<u16>) -> Verdict {
+    let cap = capacity_for(pkt);
+    ctx.encoder_runs.fetch_add(1, Ordering::Relaxed);
+    let outcome = match guarded(|| verif::encode(pkt, v311, skip, alias, &[cap], 1)) {
+        Err(panic) => return Verdict::Panic(panic),
+        Ok(Err(kind)) => return Verdict::Rejected(kind),
+        Ok(Ok(outcome)) => outcome,
+    };
+    let bytes: Vec<u8> = outcome.chunks.concat();
+    if !outcome.complete {
+        return Verdict::Fail { symptom: "not complete after one call with a buffer larger than the packet".into(), bytes, got: "incomplete".into() };
+    }
+    let expected = expected_of(expected_source, v311, skip, alias);
+    match refcodec::decode_one(&bytes, v311) {
+        Err(RefErr::Incomplete) => Verdict::Fail { symptom: "malformed: remaining length announces more bytes than were emitted".into(), bytes, got: "reference decoder: Incomplete".into() },
+        Err(RefErr::Malformed(reason)) => Verdict::Fail { symptom: format!("malformed: {}", norm_reason(&reason)), bytes, got: format!("reference decoder: Malformed({})", reason) },
+        Ok((decoded, used)) => {
+            if used != bytes.len() {
+                return Verdict::Fail { symptom: "trailing bytes after the packet".into(), got: format!("{} of {} bytes consumed", used, bytes.len()), bytes };
+            }
+            if decoded != expected {
+                let field = first_diff_field(&expected, &decoded);
+                return Verdict::Fail { symptom: format!("{} differs", field.replace('_', " ")), got: dbg_short(&decoded), bytes };
+            }
+            Verdict::Pass(bytes)
+        }
+    }
+}
+
+type Clearer = (&'static str, fn(&mut Pkt));
+
+fn clearers(p: &Pkt) -> Vec<Clearer> {
+    macro_rules! on { ($variant:ident, $name:expr, |$x:ident| $body:expr) => { ($name, (|p: &mut Pkt| { if let Pkt::$variant($x) = p { $body; } }) as fn(&mut Pkt)) }; }
+    match p {
+        Pkt::Publish(_) => vec![
+            on!(Publish, "payload", |m| m.payload = None), on!(Publish, "payload format", |m| m.payload_format = None), on!(Publish, "message expiry", |m| m.message_expiry = None),
+            on!(Publish, "response topic", |m| m.response_topic = None), on!(Publish, "correlation data", |m| m.correlation_data = None), on!(Publish, "content type", |m| m.content_type = None),
+            on!(Publish, "user properties", |m| m.user_properties = None),
+        ],
+        Pkt::Subscribe(_) => vec![
+            on!(Subscribe, "subscription-identifier", |s| s.subscription_identifier = None), on!(Subscribe, "user properties", |s| s.user_properties = None),
+            on!(Subscribe, "subscriptions beyond the first", |s| s.subscriptions.truncate(1)),
+        ],
+        Pkt::Unsubscribe(_) => vec![on!(Unsubscribe, "user properties", |u| u.user_properties = None), on!(Unsubscribe, "topic filters beyond the first", |u| u.topic_filters.truncate(1))],
+        Pkt::Disconnect(_) => vec![
+            on!(Disconnect, "session expiry", |d| d.session_expiry = None), on!(Disconnect, "reason string", |d| d.reason_string = None), on!(Disconnect, "server reference", |d| d.server_reference = None),
+            on!(Disconnect, "user properties", |d| d.user_properties = None), on!(Disconnect, "reason code", |d| d.reason_code = 0),
+        ],
+        Pkt::Connect(_) => vec![
+            on!(Connect, "client id", |c| c.client_id = None), on!(Connect, "username", |c| c.username = None), on!(Connect, "password", |c| c.password = None),
+            on!(Connect, "session expiry", |c| c.session_expiry = None), on!(Connect, "request response information", |c| c.request_response_information = None),
+            on!(Connect, "request problem information", |c| c.request_problem_information = None), on!(Connect, "receive maximum", |c| c.receive_maximum = None),
+            on!(Connect, "topic alias maximum", |c| c.topic_alias_maximum = None), on!(Connect, "maximum packet size", |c| c.maximum_packet_size = None),
+            on!(Connect, "authentication", |c| { c.authentication_method = None; c.authentication_data = None }), on!(Connect, "authentication data", |c| c.authentication_data = None),
+            on!(Connect, "will delay", |c| c.will_delay_interval = None), on!(Connect, "user properties", |c| c.user_properties = None),
+            on!(Connect, "will payload", |c| if let Some(w) = &mut c.will { w.payload = None }), on!(Connect, "will payload format", |c| if let Some(w) = &mut c.will { w.payload_format = None }),
+            on!(Connect, "will message expiry", |c| if let Some(w) = &mut c.will { w.message_expiry = None }), on!(Connect, "will response topic", |c| if let Some(w) = &mut c.will { w.response_topic = None }),
+            on!(Connect, "will correlation data", |c| if let Some(w) = &mut c.will { w.correlation_data = None }), on!(Connect, "will content type", |c| if let Some(w) = &mut c.will { w.content_type = None }),
+            on!(Connect, "will user properties", |c| if let Some(w) = &mut c.will { w.user_properties = None }), on!(Connect, "will", |c| c.will = None),
+        ],
+        _ => vec![],
+    }
+}
+
+struct Gen {
+    pkt: Pkt,
+    /// what the application supplied, when it is not `pkt` itself (CONNECT built from ConnectOptions)
+    supplied: Option<Pkt>,
+    v311: bool,
+    skip: bool,
+    alias: Option<u16>,
+}
+
+impl Gen {
+    fn plain(pkt: Pkt, v311: bool) -> Gen { Gen { pkt, supplied: None, v311, skip: false, alias: None } }
+    fn outcome(pkt: Pkt, o: (bool, bool, Option<u16>)) -> Gen { Gen { pkt, supplied: None, v311: o.0, skip: o.1, alias: o.2 } }
+}
+
+/// The submission-time and send-time validators decide what is user-constructible for the packet types
+/// that go through them (CONNECT is never validated by the client).
+fn constructible(ctx: &Ctx, g: &Gen) -> Result<(), String> {
+    let (at_submit, at_send) = match &g.pkt {
+        Pkt::Publish(m) => (Pkt::Publish(VPublish { packet_id: 0, dup: false, ..m.clone() }), g.pkt.clone()),
+        Pkt::Subscribe(s) => (Pkt::Subscribe(VSubscribe { packet_id: 0, ..s.clone() }), g.pkt.clone()),
+        Pkt::Unsubscribe(u) => (Pkt::Unsubscribe(VUnsubscribe { packet_id: 0, ..u.clone() }), g.pkt.clone()),
+        Pkt::Disconnect(_) => (g.pkt.clone(), g.pkt.clone()),
+        _ => return Ok(()),
+    };
+    match guarded(|| verif::validate_submission(&at_submit)) {
+        Err(panic) => return Err(format!("panic {}", panic)),
+        Ok(Err(kind)) => return Err(format!("submission validation: {:?}", kind)),
+        Ok(Ok(())) => {}
+    }
+    match guarded(|| verif::validate_at_send(&at_send, Some(&ctx.settings), &ctx.connect_for_validation, g.skip, g.alias)) {
+        Err(panic) => Err(format!("panic {}", panic)),
+        Ok(Err(kind)) => Err(format!("send-time validation: {:?}", kind)),
+        Ok(Ok(())) => Ok(()),
+    }
+}
+
+fn replay_body(g: &Gen, sweep: &str, expected: &Pkt, got: &str, bytes: &[u8]) -> Value {
+    json!({
+        "kind": "codec-encode",
+        "sweep": sweep,
+        "packet": dbg_short(&g.pkt),
+        "application_supplied": g.supplied.as_ref().map(dbg_short),
+        "mqtt311": g.v311,
+        "skip_topic": g.skip,
+        "alias": g.alias,
+        "capacities": [capacity_for(&g.pkt)],
+        "expected": dbg_short(expected),
+        "got": got,
+        "emitted_hex": hex(bytes, 160),
+        "emitted_len": bytes.len(),
+    })
+}
+
+fn check_case(ctx: &Ctx, sweep: &'static str, g: &Gen, idx: u64) {
+    ctx.evaluations.fetch_add(1, Ordering::Relaxed);
+    ctx.per_type[(type_number(&g.pkt) as usize) * 2 + g.v311 as usize].fetch_add(1, Ordering::Relaxed);
+    let too_long = overlong(&g.pkt);
+
+    if let Err(why) = constructible(ctx, g) {
+        if why.starts_with("panic") {
+            ctx.panics.fetch_add(1, Ordering::Relaxed);
+            let location = panic_location(&why[6..]);
+            ctx.findings.simple("C11", &format!("panic {} in validate", location), (0, idx), || (format!("validation of {} panicked: {}", dbg_short(&g.pkt), why), json!({"kind": "codec-validate", "packet": dbg_short(&g.pkt)})));
+            return;
+        }
+        ctx.rejected_by_validation.fetch_add(1, Ordering::Relaxed);
+        if too_long.is_empty() && !has_empty_topic_or_filter(&g.pkt) {
+            ctx.unexpected_validation_rejects.fetch_add(1, Ordering::Relaxed);
+            let mut samples = ctx.unexpected_samples.lock().unwrap();
+            if samples.len() < 5 { samples.push(format!("{} [{}] {}", why, sweep, dbg_short(&g.pkt))); }
+        }
+        return;
+    }
+
+    let supplied = g.supplied.as_ref().unwrap_or(&g.pkt);
+    if let Some(supplied) = &g.supplied {
+        if *supplied != g.pkt {
+            let field = first_diff_field(supplied, &g.pkt);
+            ctx.findings.simple("C02", &format!("connect built from connect options differs from the options: {}", field), (0, idx), || {
+                (format!("options describe {} but to_connect_packet gave {}", dbg_short(supplied), dbg_short(&g.pkt)), json!({"kind": "codec-connect-options", "sweep": sweep, "options_as_connect": dbg_short(supplied), "connect_packet": dbg_short(&g.pkt)}))
+            });
+        }
+    }
+
+    match oracle(ctx, &g.pkt, supplied, g.v311, g.skip, g.alias) {
+        Verdict::Pass(bytes) => {
+            ctx.passed.fetch_add(1, Ordering::Relaxed);
+            ctx.distinct.insert(hash64(&(g.v311, &bytes)));
+            if idx % 64 == 0 {
+                let mut samples = ctx.samples.lock().unwrap();
+                if samples.iter().filter(|s| s["sweep"] == json!(sweep)).count() < 1 && samples.len() < 40 {
+                    samples.push(json!({"sweep": sweep, "packet": dbg_short(&g.pkt), "mqtt311": g.v311, "skip_topic": g.skip, "alias": g.alias, "emitted_hex": hex(&bytes, 64)}));
+                }
+            }
+        }
+        Verdict::Rejected(kind) => {
+            if !too_long.is_empty() {
+                ctx.rejected_unrepresentable.fetch_add(1, Ordering::Relaxed);
+            } else {
+                let signature = format!("encode-error {} {:?}", tv(&g.pkt, g.v311), kind);
+                let expected = expected_of(supplied, g.v311, g.skip, g.alias);
+                ctx.findings.simple("C02", &signature, (capacity_for(&g.pkt), idx), || (format!("the encoder refused a representable packet: {}", dbg_short(&g.pkt)), replay_body(g, sweep, &expected, &format!("Err({:?})", kind), &[])));
+            }
+        }
+        Verdict::Panic(text) => {
+            ctx.panics.fetch_add(1, Ordering::Relaxed);
+            let signature = format!("panic {} in encode", panic_location(&text));
+            let expected = expected_of(supplied, g.v311, g.skip, g.alias);
+            ctx.findings.simple("C11", &signature, (capacity_for(&g.pkt), idx), || (format!("encoding {} panicked: {}", dbg_short(&g.pkt), text), replay_body(g, sweep, &expected, &format!("panic {}", text), &[])));
+        }
+        Verdict::Fail { symptom, bytes, got } => {
+            let expected = expected_of(supplied, g.v311, g.skip, g.alias);
+            let signature = if !too_long.is_empty() {
+                // one root cause, one signature: nothing validates a CONNECT; the other packet types go through validators
+                ctx.overlong_emitted.lock().unwrap().insert(format!("{} {}", tv(&g.pkt, g.v311), too_long[0]));
+                if matches!(g.pkt, Pkt::Connect(_)) { "connect string/binary field longer than 65535 emitted with wrapped length".to_string() }
+                else { format!("{} longer than 65535 passes validation and is emitted with wrapped length", too_long[0]) }
+            } else {
+                // which single optional field, when removed, makes the packet pass?
+                let mut blamed: Option<&'static str> = None;
+                for (name, clear) in clearers(&g.pkt) {
+                    let mut reduced = g.pkt.clone();
+                    clear(&mut reduced);
+                    if reduced == g.pkt { continue; }
+                    let mut reduced_supplied = supplied.clone();
+                    clear(&mut reduced_supplied);
+                    if let Verdict::Pass(_) = oracle(ctx, &reduced, &reduced_supplied, g.v311, g.skip, g.alias) { blamed = Some(name); break; }
+                }
+                match blamed {
+                    Some("subscription-identifier") if subscription_identifier_as_u32(&g.pkt, &bytes) => format!("{} subscription-identifier not a variable byte integer", tv(&g.pkt, g.v311)),
+                    Some(field) => format!("{} with {}: {}", tv(&g.pkt, g.v311), field, symptom),
+                    None => format!("{} {}", tv(&g.pkt, g.v311), symptom),
+                }
+            };
+            ctx.findings.simple("C02", &signature, (bytes.len(), idx), || {
+                (format!("{} [mqtt311={} skip_topic={} alias={:?}] -> {} ; got {}", clip(&dbg_short(&g.pkt), 700), g.v311, g.skip, g.alias, hex(&bytes, 40), clip(&got, 300)), replay_body(g, sweep, &expected, &got, &bytes))
+            });
+        }
+    }
+}
+
+/// The wire carries property 0x0B followed by the identifier as a big-endian u32 right after the
+/// (one byte) property length: the library wrote a four-byte integer where the spec wants a VBI.
+fn subscription_identifier_as_u32(p: &Pkt, bytes: &[u8]) -> bool {
+    if let Pkt::Subscribe(s) = p {
+        if let Some(id) = s.subscription_identifier {
+            let mut needle = vec![0x0Bu8];
+            needle.extend_from_slice(&id.to_be_bytes());
+            return bytes.windows(5).take(16).any(|w| w == needle.as_slice());
+        }
+    }
+    false
+}
+
+fn run_sweep(ctx: &Ctx, next_index: &mut u64, name: &'static str, n: u64, make: impl Fn(u64) -> Option<Gen> + Sync) {
+    let base = *next_index;
+    let generated = AtomicU64::new(0);
+    let skipped = AtomicU64::new(0);
+    (0..n).into_par_iter().for_each(|i| {
+        match make(i) {
+            Some(g) => { generated.fetch_add(1, Ordering::Relaxed); check_case(ctx, name, &g, base + i); }
+            None => { skipped.fetch_add(1, Ordering::Relaxed); }
+        }
+    });
+    *next_index += n;
+    let mut sweeps = ctx.sweeps.lock().unwrap();
+    let entry = sweeps.entry(name).or_insert((0, 0));
+    entry.0 += generated.load(Ordering::Relaxed);
+    entry.1 += skipped.load(Ordering::Relaxed);
+}
+
+// ---------------------------------------------------------------------------------------------
+// packet builders
+// ---------------------------------------------------------------------------------------------
+
+fn publish_full(qos: u8) -> VPublish {
+    VPublish {
+        packet_id: if qos > 0 { 0x1234 } else { 0 }, topic: "t/é/1".into(), qos, dup: false, retain: true, payload: Some(b(7)), payload_format: Some(1), message_expiry: Some(0xA1B2C3D4),
+        topic_alias: Some(9), response_topic: Some("resp/€".into()), correlation_data: Some(b(5)), subscription_identifiers: None, content_type: Some("text/é".into()), user_properties: ups(2, 1),
+    }
+}
+
+fn publish_min(qos: u8) -> VPublish { VPublish { packet_id: if qos > 0 { 7 } else { 0 }, topic: "t".into(), qos, ..Default::default() } }
+
+fn set_first_up(u: &mut VProps, name: Option<String>, value: Option<String>) {
+    let list = u.get_or_insert_with(Vec::new);
+    if list.is_empty() { list.push(("k".into(), "v".into())); }
+    if let Some(name) = name { list[0].0 = name; }
+    if let Some(value) = value { list[0].1 = value; }
+}
+
+const PUBLISH_FIELDS: usize = 7;
+fn set_publish_field(m: &mut VPublish, field: usize, len: usize, variant: u8) {
+    match field {
+        0 => m.topic = s(len, variant),
+        1 => m.response_topic = Some(s(len, variant)),
+        2 => m.correlation_data = Some(b(len)),
+        3 => m.content_type = Some(s(len, variant)),
+        4 => set_first_up(&mut m.user_properties, Some(s(len, variant)), None),
+        5 => set_first_up(&mut m.user_properties, None, Some(s(len, variant))),
+        _ => m.payload = Some(b(len)),
+    }
+}
+
+fn subscription(index: u64, filter: &str) -> VSubscription {
+    let mut r = Radix(index);
+    VSubscription { topic_filter: filter.to_string(), qos: r.take(3) as u8, no_local: r.bit(), retain_as_published: r.bit(), retain_handling: r.take(3) as u8 }
+}
+
+const SUB_IDS: [Option<u32>; 7] = [None, Some(1), Some(127), Some(128), Some(16383), Some(16384), Some(268_435_455)];
+const DISCONNECT_FIELDS: usize = 4;
+fn set_disconnect_field(d: &mut VDisconnect, field: usize, len: usize, variant: u8) {
+    match field {
+        0 => d.reason_string = Some(s(len, variant)),
+        1 => d.server_reference = Some(s(len, variant)),
+        2 => set_first_up(&mut d.user_properties, Some(s(len, variant)), None),
+        _ => set_first_up(&mut d.user_properties, None, Some(s(len, variant))),
+    }
+}
+
+fn will_full() -> VPublish {
+    VPublish {
+        topic: "will/é".into(), qos: 1, retain: true, payload: Some(b(6)), payload_format: Some(0), message_expiry: Some(77), response_topic: Some("wr".into()),
+        correlation_data: Some(b(3)), content_type: Some("w/€".into()), user_properties: ups(2, 1), ..Default::default()
+    }
+}
+fn will_min() -> VPublish { VPublish { topic: "w".into(), ..Default::default() } }
+
+fn connect_full() -> VConnect {
+    VConnect {
+        keep_alive: 60, clean_start: true, client_id: Some("client-é".into()), username: Some("user€".into()), password: Some(b(4)), session_expiry: Some(3600),
+        request_response_information: Some(true), request_problem_information: Some(false), receive_maximum: Some(10), topic_alias_maximum: Some(20), maximum_packet_size: Some(65536),
+        authentication_method: Some("meth".into()), authentication_data: Some(b(3)), will_delay_interval: Some(5), will: Some(will_full()), user_properties: ups(2, 0),
+    }
+}
+
+/// CONNECT fields with a length prefix: index -> setter (direct VConnect).  Fields 3 and 4 (authentication)
+/// cannot be expressed through ConnectOptions.
+const CONNECT_FIELDS: usize = 13;
+fn set_connect_field(c: &mut VConnect, field: usize, len: usize, variant: u8) {
+    let will = |c: &mut VConnect| { if c.will.is_none() { c.will = Some(will_min()); } };
+    match field {
+        0 => c.client_id = Some(s(len, variant)),
+        1 => c.username = Some(s(len, variant)),
+        2 => c.password = Some(b(len)),
+        3 => c.authentication_method = Some(s(len, variant)),
+        4 => { if c.authentication_method.is_none() { c.authentication_method = Some("m".into()); } c.authentication_data = Some(b(len)); }
+        5 => set_first_up(&mut c.user_properties, Some(s(len, variant)), None),
+        6 => set_first_up(&mut c.user_properties, None, Some(s(len, variant))),
+        7 => { will(c); c.will.as_mut().unwrap().topic = s(len, variant); }
+        8 => { will(c); c.will.as_mut().unwrap().payload = Some(b(len)); }
+        9 => { will(c); c.will.as_mut().unwrap().response_topic = Some(s(len, variant)); }
+        10 => { will(c); c.will.as_mut().unwrap().correlation_data = Some(b(len)); }
+        11 => { will(c); c.will.as_mut().unwrap().content_type = Some(s(len, variant)); }
+        _ => { will(c); let w = c.will.as_mut().unwrap(); set_first_up(&mut w.user_properties, Some(s(len, variant)), Some(s(len / 2, variant))); }
+    }
+}
+
+/// Descriptor of connect options (the neutral view type of the facade doubles as the descriptor).
+fn options_from(d: &VConnectOptions) -> Option<ConnectOptions> {
+    let mut builder = ConnectOptions::builder();
+    builder.with_keep_alive_interval_seconds(d.keep_alive);
+    builder.with_rejoin_session_policy(match d.rejoin { 0 => RejoinSessionPolicy::PostSuccess, 1 => RejoinSessionPolicy::Always, _ => RejoinSessionPolicy::Never });
+    if let Some(v) = &d.client_id { builder.with_client_id(v); }
+    if let Some(v) = &d.username { builder.with_username(v); }
+    if let Some(v) = &d.password { builder.with_password(v); }
+    if let Some(v) = d.session_expiry { builder.with_session_expiry_interval_seconds(v); }
+    if let Some(v) = d.request_response_information { builder.with_request_response_information(v); }
+    if let Some(v) = d.request_problem_information { builder.with_request_problem_information(v); }
+    if let Some(v) = d.receive_maximum { builder.with_receive_maximum(v); }
+    if let Some(v) = d.topic_alias_maximum { builder.with_topic_alias_maximum(v); }
+    if let Some(v) = d.maximum_packet_size { builder.with_maximum_packet_size_bytes(v); }
+    if let Some(v) = d.will_delay_interval { builder.with_will_delay_interval_seconds(v); }
+    if let Some(w) = &d.will { builder.with_will(verif::publish_in(w).ok()?); }
+    if let Some(u) = &d.user_properties { builder.with_user_properties(u.iter().map(|(n, v)| UserProperty::new(n.clone(), v.clone())).collect()); }
+    Some(builder.build())
+}
+
+/// What the options mean as a CONNECT, per the documentation of ConnectOptions / RejoinSessionPolicy.
+fn connect_meant_by(d: &VConnectOptions, connected_previously: bool) -> VConnect {
+    VConnect {
+        keep_alive: d.keep_alive.unwrap_or(0),
+        clean_start: match d.rejoin { 0 => !connected_previously, 1 => false, _ => true },
+        client_id: d.client_id.clone(), username: d.username.clone(), password: d.password.clone(), session_expiry: d.session_expiry,
+        request_response_information: d.request_response_information, request_problem_information: d.request_problem_information, receive_maximum: d.receive_maximum,
+        topic_alias_maximum: d.topic_alias_maximum, maximum_packet_size: d.maximum_packet_size, authentication_method: None, authentication_data: None,
+        will_delay_interval: d.will_delay_interval, will: d.will.clone(), user_properties: d.user_properties.clone(),
+    }
+}
+
+fn gen_from_options(d: &VConnectOptions, connected_previously: bool, v311: bool) -> Option<Gen> {
+    let options = options_from(d)?;
+    let pkt = verif::connect_packet(&options, connected_previously);
+    Some(Gen { pkt, supplied: Some(Pkt::Connect(connect_meant_by(d, connected_previously))), v311, skip: false, alias: None })
+}
+
+fn descriptor_of(c: &VConnect, rejoin: u8) -> VConnectOptions {
+    VConnectOptions {
+        keep_alive: Some(c.keep_alive), rejoin, client_id: c.client_id.clone(), username: c.username.clone(), password: c.password.clone(), session_expiry: c.session_expiry,
+        request_response_information: c.request_response_information, request_problem_information: c.request_problem_information, receive_maximum: c.receive_maximum,
+        topic_alias_maximum: c.topic_alias_maximum, maximum_packet_size: c.maximum_packet_size, will_delay_interval: c.will_delay_interval, will: c.will.clone(), user_properties: c.user_properties.clone(),
+    }
+}
+
+fn will_variant(index: u64) -> Option<VPublish> {
+    // 0 none, 1 minimal, 2 full, 3.. one optional will field alone
+    match index {
+        0 => None,
+        1 => Some(will_min()),
+        2 => Some(will_full()),
+        3 => Some(VPublish { payload: Some(vec![]), ..will_min() }),
+        4 => Some(VPublish { payload: Some(b(9)), qos: 2, ..will_min() }),
+        5 => Some(VPublish { payload_format: Some(1), ..will_min() }),
+        6 => Some(VPublish { message_expiry: Some(u32::MAX), ..will_min() }),
+        7 => Some(VPublish { response_topic: Some("r/é".into()), ..will_min() }),
+        8 => Some(VPublish { correlation_data: Some(b(2)), ..will_min() }),
+        9 => Some(VPublish { content_type: Some("c".into()), ..will_min() }),
+        _ => Some(VPublish { user_properties: ups(3, 1), retain: true, ..will_min() }),
+    }
+}
+
+fn connect_level(r: &mut Radix) -> VConnect {
+    let tri = |x: u64| match x { 0 => None, 1 => Some(false), _ => Some(true) };
+    VConnect {
+        keep_alive: 0, clean_start: false,
+        client_id: r.bit().then(|| "cid-é".to_string()), username: r.bit().then(|| "u€".to_string()), password: r.bit().then(|| b(3)), session_expiry: r.bit().then_some(0x01020304),
+        request_response_information: tri(r.take(3)), request_problem_information: tri(r.take(3)), receive_maximum: r.bit().then_some(0x0A0B), topic_alias_maximum: r.bit().then_some(0x0C0D),
+        maximum_packet_size: r.bit().then_some(0x0E0F1011), authentication_method: None, authentication_data: None, will_delay_interval: r.bit().then_some(0x12131415), will: None,
+        user_properties: ups(r.take(4) as usize, 1),
+    }
+}
+const CONNECT_LEVEL: u64 = 2 * 2 * 2 * 2 * 3 * 3 * 2 * 2 * 2 * 2 * 4;
+
+// ---------------------------------------------------------------------------------------------
+// (a) the sweeps
+// ---------------------------------------------------------------------------------------------
+
+fn packet_sweeps(ctx: &Ctx, tier: Tier) {
+    let thorough = tier == Tier::Thorough;
+    let mut next = 0u64;
+    let next = &mut next;
+
+    // ---- PUBLISH: full product of presence bits x payload kinds x qos x dup x retain x alias outcomes / versions
+    run_sweep(ctx, next, "publish presence product", 3 * 2 * 2 * 2 * 2 * 2 * 4 * 3 * 3 * 2 * 2 * 6, |i| {
+        let mut r = Radix(i);
+        let payload_format = [None, Some(0u8), Some(1u8)][r.take(3) as usize];
+        let message_expiry = r.bit().then_some(0xA1B2C3D4u32);
+        let topic_alias = r.bit().then_some(9u16);
+        let response_topic = r.bit().then(|| "resp/é".to_string());
+        let correlation_data = r.bit().then(|| b(5));
+        let content_type = r.bit().then(|| "text/€".to_string());
+        let user_properties = ups(r.take(4) as usize, 1);
+        let payload = match r.take(3) { 0 => None, 1 => Some(vec![]), _ => Some(b(7)) };
+        let qos = r.take(3) as u8;
+        let dup = r.bit();
+        let retain = r.bit();
+        let outcome = OUTCOMES[r.take(6) as usize];
+        if dup && qos == 0 { return None; }
+        let m = VPublish { packet_id: if qos > 0 { 0x1234 } else { 0 }, topic: "t/é/1".into(), qos, dup, retain, payload, payload_format, message_expiry, topic_alias, response_topic, correlation_data, subscription_identifiers: None, content_type, user_properties };
+        Some(Gen::outcome(Pkt::Publish(m), outcome))
+    });
+
+    // ---- PUBLISH: integer boundary values
+    let ids: [u16; 5] = [1, 2, 255, 256, 65535];
+    let u32s: [u32; 5] = [0, 1, 65535, 65536, u32::MAX];
+    run_sweep(ctx, next, "publish integer values", 5 * 5 * 2 * 6, |i| {
+        let mut r = Radix(i);
+        let mut m = publish_min(1 + r.take(2) as u8);
+        m.packet_id = ids[r.take(5) as usize];
+        m.message_expiry = Some(u32s[r.take(5) as usize]);
+        Some(Gen::outcome(Pkt::Publish(m), OUTCOMES[r.take(6) as usize]))
+    });
+
+    // ---- PUBLISH: boundary length of one field at a time (others absent / all present and short)
+    run_sweep(ctx, next, "publish one-field boundary lengths", (PUBLISH_FIELDS * LENS.len() * 3 * 6 * 2 * 2) as u64, |i| {
+        let mut r = Radix(i);
+        let field = r.take(PUBLISH_FIELDS as u64) as usize;
+        let len = LENS[r.take(LENS.len() as u64) as usize];
+        let variant = r.take(3) as u8;
+        let outcome = OUTCOMES[r.take(6) as usize];
+        let qos = r.take(2) as u8;
+        let mut m = if r.bit() { publish_full(qos) } else { publish_min(qos) };
+        if matches!(field, 2 | 6) && variant != 0 { return None; }
+        set_publish_field(&mut m, field, len, variant);
+        Some(Gen::outcome(Pkt::Publish(m), outcome))
+    });
+
+    if thorough {
+        let pairs: Vec<(usize, usize)> = (0..PUBLISH_FIELDS).flat_map(|a| ((a + 1)..PUBLISH_FIELDS).map(move |b| (a, b))).collect();
+        let pair_outcomes = [OUTCOMES[0], OUTCOMES[3], OUTCOMES[5]];
+        run_sweep(ctx, next, "publish two-field boundary lengths", (pairs.len() * LENS.len() * LENS.len() * 3) as u64, |i| {
+            let mut r = Radix(i);
+            let (fa, fb) = pairs[r.take(pairs.len() as u64) as usize];
+            let la = LENS[r.take(LENS.len() as u64) as usize];
+            let lb = LENS[r.take(LENS.len() as u64) as usize];
+            let outcome = pair_outcomes[r.take(3) as usize];
+            let mut m = publish_min(1);
+            set_publish_field(&mut m, fa, la, 1);
+            set_publish_field(&mut m, fb, lb, 2);
+            Some(Gen::outcome(Pkt::Publish(m), outcome))
+        });
+    }
+
+    // ---- SUBSCRIBE: subscription identifier x user property count x versions x subscription options product
+    let filters = ["a/b", "é/+/€", "#"];
+    for count in 1..=3u32 {
+        let combos: u64 = if count < 3 || thorough { 36u64.pow(count) } else { 36 * 3 };
+        let name: &'static str = match count { 1 => "subscribe product (1 subscription)", 2 => "subscribe product (2 subscriptions)", _ => "subscribe product (3 subscriptions)" };
+        run_sweep(ctx, next, name, combos * 7 * 4 * 2, |i| {
+            let mut r = Radix(i);
+            let combo = r.take(combos);
+            let subscription_identifier = SUB_IDS[r.take(7) as usize];
+            let user_properties = ups(r.take(4) as usize, 1);
+            let v311 = r.bit();
+            let mut c = Radix(combo);
+            let subscriptions: Vec<VSubscription> = if count < 3 || thorough {
+                (0..count as usize).map(|k| subscription(c.take(36), filters[k])).collect()
+            } else {
+                // quick: every option value at every one of the three positions, the two others fixed
+                let position = c.take(3) as usize;
+                let value = c.take(36);
+                (0..3).map(|k| subscription(if k == position { value } else { (7 * k as u64 + 5) % 36 }, filters[k])).collect()
+            };
+            Some(Gen::plain(Pkt::Subscribe(VSubscribe { packet_id: 0x0102, subscriptions, subscription_identifier, user_properties }), v311))
+        });
+    }
+
+    // ---- SUBSCRIBE: boundary lengths (filter at each position of 1..3, user property name / value), packet ids
+    run_sweep(ctx, next, "subscribe one-field boundary lengths", (5 * LENS.len() * 3 * 2 * 2 * 5) as u64, |i| {
+        let mut r = Radix(i);
+        let field = r.take(5) as usize;
+        let len = LENS[r.take(LENS.len() as u64) as usize];
+        let variant = r.take(3) as u8;
+        let v311 = r.bit();
+        let full = r.bit();
+        let packet_id = ids[r.take(5) as usize];
+        let mut sub = VSubscribe { packet_id, subscriptions: (0..3).map(|k| subscription(k as u64 * 13 + 1, filters[k])).collect(), subscription_identifier: None, user_properties: if full { ups(3, 1) } else { None } };
+        match field {
+            0..=2 => sub.subscriptions[field].topic_filter = s(len, variant),
+            3 => set_first_up(&mut sub.user_properties, Some(s(len, variant)), None),
+            _ => set_first_up(&mut sub.user_properties, None, Some(s(len, variant))),
+        }
+        Some(Gen::plain(Pkt::Subscribe(sub), v311))
+    });
+
+    // ---- UNSUBSCRIBE
+    run_sweep(ctx, next, "unsubscribe product", 3 * 4 * 2 * 3 * 5, |i| {
+        let mut r = Radix(i);
+        let count = 1 + r.take(3) as usize;
+        let user_properties = ups(r.take(4) as usize, 1);
+        let v311 = r.bit();
+        let variant = r.take(3) as u8;
+        let packet_id = ids[r.take(5) as usize];
+        let topic_filters = (0..count).map(|k| s(3 + k * 2, variant)).collect();
+        Some(Gen::plain(Pkt::Unsubscribe(VUnsubscribe { packet_id, topic_filters, user_properties }), v311))
+    });
+    run_sweep(ctx, next, "unsubscribe one-field boundary lengths", (5 * LENS.len() * 3 * 2 * 2) as u64, |i| {
+        let mut r = Radix(i);
+        let field = r.take(5) as usize;
+        let len = LENS[r.take(LENS.len() as u64) as usize];
+        let variant = r.take(3) as u8;
+        let v311 = r.bit();
+        let full = r.bit();
+        let mut u = VUnsubscribe { packet_id: 9, topic_filters: vec!["a".into(), "b/é".into(), "c/#".into()], user_properties: if full { ups(3, 1) } else { None } };
+        match field {
+            0..=2 => u.topic_filters[field] = s(len, variant),
+            3 => set_first_up(&mut u.user_properties, Some(s(len, variant)), None),
+            _ => set_first_up(&mut u.user_properties, None, Some(s(len, variant))),
+        }
+        Some(Gen::plain(Pkt::Unsubscribe(u), v311))
+    });
+    if thorough {
+        run_sweep(ctx, next, "subscribe / unsubscribe two-field boundary lengths", (2 * LENS.len() * LENS.len() * 3 * 2) as u64, |i| {
+            let mut r = Radix(i);
+            let subscribe = r.bit();
+            let la = LENS[r.take(LENS.len() as u64) as usize];
+            let lb = LENS[r.take(LENS.len() as u64) as usize];
+            let which = r.take(3);
+            let v311 = r.bit();
+            let mut user_properties = None;
+            let (fa, fb) = match which {
+                0 => (s(la, 1), s(lb, 2)),
+                1 => { set_first_up(&mut user_properties, Some(s(lb, 1)), None); (s(la, 2), "x".to_string()) }
+                _ => { set_first_up(&mut user_properties, Some(s(la, 1)), Some(s(lb, 2))); ("y".to_string(), "x".to_string()) }
+            };
+            Some(Gen::plain(if subscribe {
+                Pkt::Subscribe(VSubscribe { packet_id: 3, subscriptions: vec![subscription(5, &fa), subscription(22, &fb)], subscription_identifier: None, user_properties })
+            } else {
+                Pkt::Unsubscribe(VUnsubscribe { packet_id: 3, topic_filters: vec![fa, fb], user_properties })
+            }, v311))
+        });
+    }
+
+    // ---- DISCONNECT: every client reason code x presence bits x user property count x versions
+    let codes = refcodec::disconnect_codes_client();
+    run_sweep(ctx, next, "disconnect product", codes.len() as u64 * 3 * 2 * 2 * 4 * 2, |i| {
+        let mut r = Radix(i);
+        let reason_code = codes[r.take(codes.len() as u64) as usize];
+        let session_expiry = [None, Some(0u32), Some(u32::MAX)][r.take(3) as usize];
+        let reason_string = r.bit().then(|| "bye é".to_string());
+        let server_reference = r.bit().then(|| "srv€".to_string());
+        let user_properties = ups(r.take(4) as usize, 1);
+        let v311 = r.bit();
+        // a non-zero session expiry in DISCONNECT needs a non-zero one in CONNECT (the validation context has 1000)
+        Some(Gen::plain(Pkt::Disconnect(VDisconnect { reason_code, session_expiry, reason_string, user_properties, server_reference }), v311))
+    });
+    run_sweep(ctx, next, "disconnect one-field boundary lengths", (DISCONNECT_FIELDS * LENS.len() * 3 * 2 * 2 * 2) as u64, |i| {
+        let mut r = Radix(i);
+        let field = r.take(DISCONNECT_FIELDS as u64) as usize;
+        let len = LENS[r.take(LENS.len() as u64) as usize];
+        let variant = r.take(3) as u8;
+        let v311 = r.bit();
+        let full = r.bit();
+        let reason_code = if r.bit() { 0 } else { 0x04 };
+        let mut d = if full { VDisconnect { reason_code, session_expiry: Some(5), reason_string: Some("r".into()), user_properties: ups(2, 1), server_reference: Some("s".into()) } } else { VDisconnect { reason_code, ..Default::default() } };
+        set_disconnect_field(&mut d, field, len, variant);
+        Some(Gen::plain(Pkt::Disconnect(d), v311))
+    });
+    if thorough {
+        run_sweep(ctx, next, "disconnect two-field boundary lengths", (6 * LENS.len() * LENS.len() * 2) as u64, |i| {
+            let mut r = Radix(i);
+            let pair = [(0usize, 1usize), (0, 2), (0, 3), (1, 2), (1, 3), (2, 3)][r.take(6) as usize];
+            let la = LENS[r.take(LENS.len() as u64) as usize];
+            let lb = LENS[r.take(LENS.len() as u64) as usize];
+            let v311 = r.bit();
+            let mut d = VDisconnect { reason_code: 0x80, ..Default::default() };
+            set_disconnect_field(&mut d, pair.0, la, 1);
+            set_disconnect_field(&mut d, pair.1, lb, 2);
+            Some(Gen::plain(Pkt::Disconnect(d), v311))
+        });
+    }
+
+    // ---- client generated acknowledgements and PINGREQ
+    run_sweep(ctx, next, "acknowledgements and pingreq", 5 * 5 * 2, |i| {
+        let mut r = Radix(i);
+        let kind = r.take(5);
+        let packet_id = ids[r.take(5) as usize];
+        let v311 = r.bit();
+        let ack = VAck { packet_id, ..Default::default() };
+        Some(Gen::plain(match kind { 0 => Pkt::Puback(ack), 1 => Pkt::Pubrec(ack), 2 => Pkt::Pubrel(ack), 3 => Pkt::Pubcomp(ack), _ => { if packet_id != 1 { return None; } Pkt::Pingreq } }, v311))
+    });
+
+    // ---- CONNECT built from ConnectOptions: full product of the connect-level presence bits x will variants x policy x versions
+    let will_variants: u64 = if thorough { 11 } else { 3 };
+    run_sweep(ctx, next, "connect options product", CONNECT_LEVEL * will_variants * 2 * 3 * 2 * 2, |i| {
+        let mut r = Radix(i);
+        let mut c = connect_level(&mut r);
+        c.will = will_variant(r.take(will_variants));
+        let keep_alive = if r.bit() { Some(0x0607u16) } else { None };
+        let rejoin = r.take(3) as u8;
+        let connected_previously = r.bit();
+        let v311 = r.bit();
+        let mut d = descriptor_of(&c, rejoin);
+        d.keep_alive = keep_alive;
+        gen_from_options(&d, connected_previously, v311)
+    });
+
+    // ---- CONNECT from ConnectOptions: full product of the will's optional fields, connect level minimal / full
+    run_sweep(ctx, next, "connect options will product", 3 * 3 * 2 * 2 * 2 * 2 * 4 * 3 * 2 * 2 * 2 * 2, |i| {
+        let mut r = Radix(i);
+        let payload = match r.take(3) { 0 => None, 1 => Some(vec![]), _ => Some(b(8)) };
+        let payload_format = [None, Some(0u8), Some(1u8)][r.take(3) as usize];
+        let will = VPublish {
+            topic: "w/é".into(), payload, payload_format, message_expiry: r.bit().then_some(0x21222324), response_topic: r.bit().then(|| "wr/€".to_string()), correlation_data: r.bit().then(|| b(4)),
+            content_type: r.bit().then(|| "wc".to_string()), user_properties: ups(r.take(4) as usize, 1), qos: r.take(3) as u8, retain: r.bit(), ..Default::default()
+        };
+        let will_delay = r.bit().then_some(0x31323334u32);
+        let full = r.bit();
+        let v311 = r.bit();
+        let mut c = if full { VConnect { authentication_method: None, authentication_data: None, ..connect_full() } } else { VConnect::default() };
+        c.will = Some(will);
+        c.will_delay_interval = will_delay;
+        gen_from_options(&descriptor_of(&c, 0), false, v311)
+    });
+
+    // ---- CONNECT given directly (authentication fields, keep alive and clean start values)
+    run_sweep(ctx, next, "connect direct product", CONNECT_LEVEL * 3 * 3 * 3 * 2 * 2, |i| {
+        let mut r = Radix(i);
+        let mut c = connect_level(&mut r);
+        c.will = will_variant(r.take(3));
+        match r.take(3) { 0 => {}, 1 => c.authentication_method = Some("m€".into()), _ => { c.authentication_method = Some("meth".into()); c.authentication_data = Some(b(6)); } }
+        c.keep_alive = [0u16, 1, 65535][r.take(3) as usize];
+        c.clean_start = r.bit();
+        let v311 = r.bit();
+        Some(Gen::plain(Pkt::Connect(c), v311))
+    });
+
+    // ---- CONNECT boundary lengths (incl. 65536: nothing validates a CONNECT), through the options and directly
+    run_sweep(ctx, next, "connect one-field boundary lengths", (CONNECT_FIELDS * LENS.len() * 3 * 2 * 2 * 2) as u64, |i| {
+        let mut r = Radix(i);
+        let field = r.take(CONNECT_FIELDS as u64) as usize;
+        let len = LENS[r.take(LENS.len() as u64) as usize];
+        let variant = r.take(3) as u8;
+        let v311 = r.bit();
+        let full = r.bit();
+        let through_options = r.bit();
+        if matches!(field, 2 | 4 | 8 | 10) && variant != 0 { return None; }
+        let mut c = if full { connect_full() } else { VConnect { keep_alive: 30, ..Default::default() } };
+        if through_options { if matches!(field, 3 | 4) { return None; } c.authentication_method = None; c.authentication_data = None; }
+        set_connect_field(&mut c, field, len, variant);
+        if through_options { gen_from_options(&descriptor_of(&c, 2), false, v311) } else { Some(Gen::plain(Pkt::Connect(c), v311)) }
+    });
+    if thorough {
+        let pairs: Vec<(usize, usize)> = (0..CONNECT_FIELDS).flat_map(|a| ((a + 1)..CONNECT_FIELDS).map(move |b| (a, b))).collect();
+        run_sweep(ctx, next, "connect two-field boundary lengths", (pairs.len() * LENS.len() * LENS.len() * 2) as u64, |i| {
+            let mut r = Radix(i);
+            let (fa, fb) = pairs[r.take(pairs.len() as u64) as usize];
+            let la = LENS[r.take(LENS.len() as u64) as usize];
+            let lb = LENS[r.take(LENS.len() as u64) as usize];
+            let v311 = r.bit();
+            // user property name and value live in the same property: set both on it
+            let mut c = VConnect { keep_alive: 30, clean_start: true, ..Default::default() };
+            set_connect_field(&mut c, fa, la, 1);
+            set_connect_field(&mut c, fb, lb, 2);
+            Some(Gen::plain(Pkt::Connect(c), v311))
+        });
+    }
+}
+
+// ---------------------------------------------------------------------------------------------
+// (b) buffer fragmentation graph
+// ---------------------------------------------------------------------------------------------
+
+struct FragItem { name: String, pkt: Pkt, v311: bool, skip: bool, alias: Option<u16> }
+
+fn frag_items() -> Vec<FragItem> {
+    let mut items: Vec<FragItem> = Vec::new();
+    let mut add = |name: &str, pkt: Pkt, v311: bool, skip: bool, alias: Option<u16>| items.push(FragItem { name: format!("{}{}", name, if v311 { " (3.1.1)" } else { "" }), pkt, v311, skip, alias });
+    let string_lens = [0usize, 1, 3, 4, 5, 127];
+    let payload_lens = [0usize, 1, 3, 4, 5, 9, 300];
+    for v311 in [false, true] {
+        add("pingreq", Pkt::Pingreq, v311, false, None);
+        for id in [1u16, 65535] {
+            let ack = VAck { packet_id: id, ..Default::default() };
+            add(&format!("puback id {}", id), Pkt::Puback(ack.clone()), v311, false, None);
+            add(&format!("pubrec id {}", id), Pkt::Pubrec(ack.clone()), v311, false, None);
+            add(&format!("pubrel id {}", id), Pkt::Pubrel(ack.clone()), v311, false, None);
+            add(&format!("pubcomp id {}", id), Pkt::Pubcomp(ack), v311, false, None);
+        }
+        add("disconnect normal", Pkt::Disconnect(VDisconnect::default()), v311, false, None);
+        add("disconnect reason 4", Pkt::Disconnect(VDisconnect { reason_code: 4, ..Default::default() }), v311, false, None);
+        add("disconnect all properties", Pkt::Disconnect(VDisconnect { reason_code: 0x80, session_expiry: Some(0x01020304), reason_string: Some("reason é".into()), user_properties: ups(3, 1), server_reference: Some("srv".into()) }), v311, false, None);
+        for len in payload_lens {
+            add(&format!("publish qos1 payload {}", len), Pkt::Publish(VPublish { payload: Some(b(len)), ..publish_min(1) }), v311, false, None);
+        }
+        add("publish qos0 no payload", Pkt::Publish(publish_min(0)), v311, false, None);
+        for len in string_lens {
+            if len > 0 { add(&format!("publish qos2 topic {}", len), Pkt::Publish(VPublish { topic: s(len, 1), payload: Some(b(9)), ..publish_min(2) }), v311, false, None); }
+            add(&format!("subscribe filter {}", len.max(1)), Pkt::Subscribe(VSubscribe { packet_id: 2, subscriptions: vec![subscription(17, &s(len.max(1), 1))], ..Default::default() }), v311, false, None);
+            add(&format!("unsubscribe filter {}", len.max(1)), Pkt::Unsubscribe(VUnsubscribe { packet_id: 2, topic_filters: vec![s(len.max(1), 1)], ..Default::default() }), v311, false, None);
+            add(&format!("connect client id {}", len), Pkt::Connect(VConnect { keep_alive: 60, clean_start: true, client_id: Some(s(len, 1)), ..Default::default() }), v311, false, None);
+        }
+        add("publish all properties", Pkt::Publish(publish_full(1)), v311, false, None);
+        add("publish 16400 byte payload (3 byte remaining length)", Pkt::Publish(VPublish { payload: Some(b(16400)), ..publish_min(1) }), v311, false, None);
+        add("publish 200 byte content type (2 byte property length)", Pkt::Publish(VPublish { content_type: Some(s(200, 1)), payload: Some(b(3)), ..publish_min(0) }), v311, false, None);
+        add("subscribe 3 subscriptions, identifier, user properties", Pkt::Subscribe(VSubscribe { packet_id: 0x0102, subscriptions: vec![subscription(1, "a"), subscription(20, "bé/+"), subscription(35, &s(127, 2))], subscription_identifier: Some(16384), user_properties: ups(2, 1) }), v311, false, None);
+        add("unsubscribe 3 filters, user properties", Pkt::Unsubscribe(VUnsubscribe { packet_id: 0x0102, topic_filters: vec!["a".into(), "bé/+".into(), s(127, 2)], user_properties: ups(3, 1) }), v311, false, None);
+        add("connect minimal", Pkt::Connect(VConnect::default()), v311, false, None);
+        add("connect everything", Pkt::Connect(connect_full()), v311, false, None);
+        add("connect everything, field lengths 0 1 3 4 5 127", Pkt::Connect(VConnect {
+            client_id: Some(s(5, 1)), username: Some(String::new()), password: Some(b(1)), authentication_method: Some(s(3, 1)), authentication_data: Some(b(4)),
+            will: Some(VPublish { topic: s(3, 1), payload: Some(b(4)), response_topic: Some(s(127, 1)), correlation_data: Some(b(5)), content_type: Some(s(1, 0)), user_properties: Some(vec![(String::new(), s(4, 1)), (s(5, 2), String::new())]), ..will_full() }),
+            user_properties: Some(vec![(s(1, 0), s(3, 1)), (s(127, 1), s(0, 0))]), ..connect_full()
+        }), v311, false, None);
+    }
+    // MQTT 5 only: every alias outcome, variable byte integers of 1..4 bytes as a property value
+    for (index, outcome) in OUTCOMES.iter().enumerate().take(5).skip(1) {
+        add(&format!("publish all properties, alias outcome {}", index), Pkt::Publish(publish_full(1)), false, outcome.1, outcome.2);
+        add(&format!("publish minimal, alias outcome {}", index), Pkt::Publish(VPublish { payload: Some(b(5)), ..publish_min(0) }), false, outcome.1, outcome.2);
+    }
+    add("publish subscription identifiers of 1..4 bytes (encoder step only; not user-settable)", Pkt::Publish(VPublish { subscription_identifiers: Some(vec![1, 127, 128, 16383, 16384, 2_097_151, 2_097_152, 268_435_455]), payload: Some(b(4)), ..publish_min(1) }), false, false, None);
+    for (index, id) in SUB_IDS.iter().enumerate().skip(1) {
+        add(&format!("subscribe identifier #{}", index), Pkt::Subscribe(VSubscribe { packet_id: 5, subscriptions: vec![subscription(9, "x/y")], subscription_identifier: *id, user_properties: None }), false, false, None);
+    }
+    items
+}
+
+#[derive(Default)]
+struct FragStats { states: u64, transitions: u64, executions: u64, cross_checks: u64, capacity_mismatches: u64, longest_path: usize, multi_path_nodes: u64 }
+
+fn frag_fail(ctx: &Ctx, item: &FragItem, index: usize, cap: usize, prefix: usize, path: &[usize], what: &str, oneshot: &[u8]) {
+    let dedupe = format!("fragmentation-dependent output {}", tv(&item.pkt, item.v311));
+    let signature = format!("fragmentation-dependent output {} cap={} at prefix {}", tv(&item.pkt, item.v311), cap, prefix);
+    ctx.findings.report("C02", &dedupe, (index, (prefix as u64) << 16 | cap as u64), || {
+        (signature, format!("{}: {} (capacity path {:?})", item.name, what, path), json!({"kind": "codec-fragmentation", "packet_name": item.name, "packet": dbg_short(&item.pkt), "mqtt311": item.v311, "skip_topic": item.skip, "alias": item.alias, "capacity_path": path, "what": what, "one_shot_hex": hex(oneshot, 160)}))
+    });
+}
+
+fn explore_fragmentation(ctx: &Ctx, item: &FragItem, index: usize, caps: &[usize]) -> FragStats {
+    let mut stats = FragStats::default();
+    let run = |capacities: &[usize], max_calls: usize, stats: &mut FragStats| -> Result<EncodeOutcome, String> {
+        stats.executions += 1;
+        match guarded(|| verif::encode(&item.pkt, item.v311, item.skip, item.alias, capacities, max_calls)) {
+            Err(panic) => {
+                ctx.panics.fetch_add(1, Ordering::Relaxed);
+                let signature = format!("panic {} in encode", panic_location(&panic));
+                ctx.findings.simple("C11", &signature, (index, 0), || (format!("{} with capacities {:?}: {}", item.name, capacities, panic), json!({"kind": "codec-fragmentation", "packet": dbg_short(&item.pkt), "mqtt311": item.v311, "capacity_path": capacities})));
+                Err(panic)
+            }
+            Ok(Err(kind)) => Err(format!("{:?}", kind)),
+            Ok(Ok(outcome)) => Ok(outcome),
+        }
+    };
+    let oneshot = match run(&[capacity_for(&item.pkt)], 1, &mut stats) {
+        Ok(outcome) if outcome.complete => outcome.chunks.concat(),
+        Ok(_) => { frag_fail(ctx, item, index, capacity_for(&item.pkt), 0, &[], "one call with a buffer larger than the packet did not complete", &[]); return stats; }
+        Err(why) => { frag_fail(ctx, item, index, capacity_for(&item.pkt), 0, &[], &format!("one-shot encoding failed: {}", why), &[]); return stats; }
+    };
+    let total = oneshot.len();
+    let mut visited: HashMap<(usize, bool), Vec<usize>> = HashMap::new();
+    let mut cross_checked: HashSet<(usize, bool)> = HashSet::new();
+    let mut queue: VecDeque<(usize, bool)> = VecDeque::new();
+    visited.insert((0, false), Vec::new());
+    queue.push_back((0, false));
+    while let Some(node) = queue.pop_front() {
+        stats.states += 1;
+        let (prefix, complete) = node;
+        if complete {
+            if prefix != total { frag_fail(ctx, item, index, 0, prefix, &visited[&node], &format!("complete after {} bytes, one-shot encoding has {}", prefix, total), &oneshot); }
+            continue;
+        }
+        let path = visited[&node].clone();
+        stats.longest_path = stats.longest_path.max(path.len());
+        for &cap in caps {
+            let mut extended = path.clone();
+            extended.push(cap);
+            let outcome = match run(&extended, extended.len(), &mut stats) { Ok(o) => o, Err(why) => { frag_fail(ctx, item, index, cap, prefix, &extended, &format!("encoder error {}", why), &oneshot); continue; } };
+            stats.transitions += 1;
+            if outcome.chunks.len() != extended.len() { frag_fail(ctx, item, index, cap, prefix, &extended, "re-execution of the same capacity path completed after a different number of calls", &oneshot); continue; }
+            let before: usize = outcome.chunks[..path.len()].iter().map(|c| c.len()).sum();
+            if before != prefix || outcome.chunks[..path.len()].concat() != oneshot[..prefix.min(total)] { frag_fail(ctx, item, index, cap, prefix, &extended, "re-execution of the same capacity path emitted a different prefix", &oneshot); continue; }
+            if outcome.capacities.last() != Some(&cap) { stats.capacity_mismatches += 1; }
+            let chunk = outcome.chunks.last().unwrap();
+            let real_capacity = outcome.capacities.last().copied().unwrap_or(cap);
+            if chunk.len() > real_capacity { frag_fail(ctx, item, index, cap, prefix, &extended, &format!("{} bytes written into a buffer of capacity {}", chunk.len(), real_capacity), &oneshot); continue; }
+            if prefix + chunk.len() > total || oneshot[prefix..prefix + chunk.len()] != chunk[..] {
+                frag_fail(ctx, item, index, cap, prefix, &extended, &format!("call emitted {} where the one-shot encoding has {}", hex(chunk, 32), hex(&oneshot[prefix.min(total)..(prefix + chunk.len()).min(total)], 32)), &oneshot);
+                continue;
+            }
+            if chunk.is_empty() && !outcome.complete { frag_fail(ctx, item, index, cap, prefix, &extended, "call made no progress and did not complete", &oneshot); continue; }
+            let successor = (prefix + chunk.len(), outcome.complete);
+            match visited.get(&successor) {
+                None => { visited.insert(successor, extended); queue.push_back(successor); }
+                Some(first_path) => {
+                    if !successor.1 && *first_path != extended && cross_checked.insert(successor) {
+                        // dedup soundness: two different paths to the same prefix length must continue identically
+                        stats.cross_checks += 1;
+                        stats.multi_path_nodes += 1;
+                        // continuation capacities: 4,4,4,... (large packets: sixteen 4s, then 4096 repeated, to bound the cost)
+                        let tail: Vec<usize> = if total > 1000 { let mut t = vec![4usize; 16]; t.push(4096); t } else { vec![4] };
+                        let mut a = first_path.clone(); a.extend_from_slice(&tail);
+                        let mut bpath = extended.clone(); bpath.extend_from_slice(&tail);
+                        let (la, lb) = (first_path.len(), extended.len());
+                        let ra = run(&a, total + 16, &mut stats);
+                        let rb = run(&bpath, total + 16, &mut stats);
+                        match (ra, rb) {
+                            (Ok(ra), Ok(rb)) => {
+                                if ra.complete != rb.complete || ra.chunks[la..] != rb.chunks[lb..] {
+                                    frag_fail(ctx, item, index, cap, successor.0, &extended, &format!("encoder state is not a function of the emitted prefix: paths {:?} and {:?} both emitted {} bytes but continue differently under capacities 4,4,4,...", first_path, extended, successor.0), &oneshot);
+                                }
+                            }
+                            _ => frag_fail(ctx, item, index, cap, successor.0, &extended, "continuation under capacity 4 failed", &oneshot),
+                        }
+                    }
+                }
+            }
+        }
+    }
+    stats
+}
+
+/// A packet whose remaining length needs four bytes is too large for the graph (2 M nodes, every edge
+/// re-executes a 2 MB clone): uniform capacity runs from start to end instead.
+fn giant_packet_runs(ctx: &Ctx) -> (u64, u64) {
+    let item = FragItem { name: "publish 2097200 byte payload (4 byte remaining length)".into(), pkt: Pkt::Publish(VPublish { payload: Some(b(2_097_200)), ..publish_min(1) }), v311: false, skip: false, alias: None };
+    let mut runs = 0u64;
+    let mut calls = 0u64;
+    let oneshot = match guarded(|| verif::encode(&item.pkt, false, false, None, &[2_200_000], 1)) { Ok(Ok(o)) if o.complete => o.chunks.concat(), _ => { frag_fail(ctx, &item, 100_000, 2_200_000, 0, &[], "one-shot encoding of the giant packet failed", &[]); return (0, 0); } };
+    runs += 1;
+    let results: Vec<(usize, Result<Result<EncodeOutcome, ErrKind>, String>)> = [4usize, 5, 6, 7, 9, 24, 4096, 65536].par_iter().map(|cap| (*cap, guarded(|| verif::encode(&item.pkt, false, false, None, &[*cap], 3_000_000)))).collect();
+    for (cap, result) in results {
+        runs += 1;
+        match result {
+            Ok(Ok(outcome)) => {
+                calls += outcome.chunks.len() as u64;
+                if !outcome.complete || outcome.chunks.concat() != oneshot {
+                    frag_fail(ctx, &item, 100_000, cap, 0, &[cap], "uniform capacity run differs from the one-shot encoding", &oneshot[..64]);
+                }
+            }
+            Ok(Err(kind)) => frag_fail(ctx, &item, 100_000, cap, 0, &[cap], &format!("encoder error {:?}", kind), &oneshot[..64]),
+            Err(panic) => { ctx.panics.fetch_add(1, Ordering::Relaxed); ctx.findings.simple("C11", &format!("panic {} in encode", panic_location(&panic)), (100_000, 0), || (format!("giant packet, capacity {}: {}", cap, panic), json!({"kind": "codec-fragmentation", "packet_name": item.name, "capacity_path": [cap]}))); }
+        }
+    }
+    (runs, calls)
+}
+
+// ---------------------------------------------------------------------------------------------
+
+pub fn run(tier: Tier) -> i32 {
+    let mut report = Report::new("C02", tier, "model_checking");
+    let ctx = Ctx::new();
+    let pool = rayon::ThreadPoolBuilder::new().num_threads(threads()).build().unwrap();
+
+    let sweep_started = std::time::Instant::now();
+    pool.install(|| packet_sweeps(&ctx, tier));
+    let sweep_wall = sweep_started.elapsed().as_secs_f64();
+
+    let cmax = if tier == Tier::Quick { 24 } else { 64 };
+    let mut caps: Vec<usize> = (4..=cmax).collect();
+    caps.push(4096);
+    let items = frag_items();
+    let graph_started = std::time::Instant::now();
+    let stats: Vec<FragStats> = pool.install(|| items.par_iter().enumerate().map(|(index, item)| explore_fragmentation(&ctx, item, index, &caps)).collect());
+    let (giant_runs, giant_calls) = pool.install(|| giant_packet_runs(&ctx));
+    let graph_wall = graph_started.elapsed().as_secs_f64();
+
+    let states: u64 = stats.iter().map(|s| s.states).sum();
+    let transitions: u64 = stats.iter().map(|s| s.transitions).sum();
+    let executions: u64 = stats.iter().map(|s| s.executions).sum::<u64>() + giant_runs;
+    let cross_checks: u64 = stats.iter().map(|s| s.cross_checks).sum();
+    let capacity_mismatches: u64 = stats.iter().map(|s| s.capacity_mismatches).sum();
+
+    // samples: (packet, capacity path) of the deepest node of a few graphs, and (packet -> hex)
+    let mut samples: Vec<Value> = Vec::new();
+    for (item, stat) in items.iter().zip(stats.iter()).filter(|(i, _)| i.name.starts_with("publish all properties") || i.name.starts_with("connect everything") || i.name.starts_with("subscribe 3")).take(4) {
+        let uniform = verif::encode(&item.pkt, item.v311, item.skip, item.alias, &[7], 10_000).ok();
+        samples.push(json!({"kind": "fragmentation graph", "packet_name": item.name, "packet": dbg_short(&item.pkt), "mqtt311": item.v311, "skip_topic": item.skip, "alias": item.alias, "nodes": stat.states, "edges": stat.transitions,
+            "example_capacity_path": "7 repeated", "example_chunks_hex": uniform.map(|o| o.chunks.iter().take(8).map(|c| hex(c, 16)).collect::<Vec<_>>())}));
+    }
+    samples.extend(ctx.samples.lock().unwrap().iter().cloned());
+
+    let evaluations = ctx.evaluations.load(Ordering::Relaxed);
+    let mut per_type = serde_json::Map::new();
+    for t in 1..16u8 { for v in 0..2usize { let n = ctx.per_type[t as usize * 2 + v].load(Ordering::Relaxed); if n > 0 { per_type.insert(format!("{}{}", type_name_of_number(t), if v == 1 { "(3.1.1)" } else { "" }), json!(n)); } } }
+    let sweeps: BTreeMap<String, Value> = ctx.sweeps.lock().unwrap().iter().map(|(k, (g, s))| (k.to_string(), json!({"cases": g, "inapplicable_combinations_skipped": s}))).collect();
+
+    report.set("engine", json!("real encoder (Encoder::reset / Encoder::encode through the verif facade) against the independent reference decoder; fragmentation explored as an explicit state graph by re-execution of capacity paths"));
+    report.set("states", json!(states));
+    report.set("transitions", json!(transitions));
+    report.set("traces_validated_against_impl", json!(executions));
+    report.set("evaluations", json!(evaluations));
+    report.set("distinct_nontrivial", json!(ctx.distinct.len()));
+    report.set("rule", json!("(a) sweeps enumerate mixed-radix products (presence bits of every optional field, payload kinds, qos/dup/retain, alias outcomes, versions, subscription options, reason codes, user property counts 0..3, boundary byte lengths 0/1/2/127/128/16383/16384/65535/65536 with ascii and multi-byte alphabets) - no sampling; a case is counted in distinct_nontrivial when it passed the oracle and its (version, emitted bytes) hash is new. (b) per packet: BFS over nodes (prefix length, complete) with every capacity in 4..=Cmax plus 4096 from every node; dedup on the node."));
+    report.set("exhaustive", json!(true));
+    report.set("exhaustive_scope", json!(format!("every listed product is enumerated completely; every fragmentation graph ({} packets, capacities 4..={} and 4096) is explored to closure without caps. Outside the graphs: the 4-byte-remaining-length packet is only run with uniform capacities (not a graph); dedup soundness is cross-checked once per multi-path node, not per arrival", items.len(), cmax)));
+    report.set("sweep_cases", json!(sweeps));
+    report.set("cases_by_packet_type", Value::Object(per_type));
+    report.set("passed", json!(ctx.passed.load(Ordering::Relaxed)));
+    report.set("encoder_runs_in_sweeps", json!(ctx.encoder_runs.load(Ordering::Relaxed)));
+    report.set("rejected_unrepresentable_inputs", json!(ctx.rejected_unrepresentable.load(Ordering::Relaxed)));
+    report.set("not_user_constructible_rejected_by_validation", json!(ctx.rejected_by_validation.load(Ordering::Relaxed)));
+    report.set("unexpected_validation_rejections", json!(ctx.unexpected_validation_rejects.load(Ordering::Relaxed)));
+    report.set("unexpected_validation_rejection_samples", json!(*ctx.unexpected_samples.lock().unwrap()));
+    report.set("overlong_fields_emitted_with_wrapped_length", json!(ctx.overlong_emitted.lock().unwrap().iter().cloned().collect::<Vec<_>>()));
+    report.set("library_panics", json!(ctx.panics.load(Ordering::Relaxed)));
+    report.set("fragmentation_packets", json!(items.len()));
+    report.set("fragmentation_capacities", json!(format!("4..={} and 4096", cmax)));
+    report.set("fragmentation_longest_shortest_path", json!(stats.iter().map(|s| s.longest_path).max().unwrap_or(0)));
+    report.set("dedup_cross_checks", json!(cross_checks));
+    report.set("capacity_reported_differs_from_requested", json!(capacity_mismatches));
+    report.set("giant_packet_uniform_runs", json!(giant_runs));
+    report.set("giant_packet_encoder_calls", json!(giant_calls));
+    report.set("wall_sweeps_s", json!((sweep_wall * 100.0).round() / 100.0));
+    report.set("wall_graph_s", json!((graph_wall * 100.0).round() / 100.0));
+    report.set("samples", json!(samples));
+    let counts = ctx.findings.flush(&mut report);
+    report.set("failing_inputs_by_signature", counts);
+
+    report.assume("reference codec (mc/src/refcodec) is trusted: written from the OASIS texts, self-tested");
+    report.assume("user-constructible = accepted by the library's own submission-time and send-time validators (permissive negotiated settings) for PUBLISH/SUBSCRIBE/UNSUBSCRIBE/DISCONNECT; CONNECT is never validated by the client so every ConnectOptions value counts; DUP with QoS 0 is not constructible (the engine sets DUP only on QoS>0 retransmission)");
+    report.assume("alias outcome (skip_topic, None) is not a resolver result and is not enumerated; in MQTT 3.1.1 mode only (false, None) applies");
+    report.assume("graph dedup on (prefix length, complete) assumes the encoder state is a function of the emitted prefix for a fixed packet; checked for every node reached by two distinct paths by comparing the full continuation under capacities 4,4,4,... (packets over 1000 bytes: sixteen 4s then 4096 repeated)");
+    if capacity_mismatches > 0 { report.assume("Vec::with_capacity returned a different capacity than requested for some calls; the bound check used the real capacity reported by the facade"); }
+    report.finish()
+}
